@@ -9,16 +9,22 @@ namespace CtyModel
 namespace Refine
 open NumCmp
 
+variable [ExactOracle]
+
 /-! ## γ under a change of one component -/
 
+omit [ExactOracle] in
 theorem rangeOk_setNull (n : Tri) (r : Rfn) (x : Conc) : rangeOk (setNull n r) x = rangeOk r x := by
   cases r <;> cases x <;> rfl
 
+omit [ExactOracle] in
 theorem nullness_setNull (n : Tri) {r : Rfn} (h : r ≠ .unref) : (setNull n r).nullness = n := by
   cases r <;> simp_all [setNull, Rfn.nullness]
 
+omit [ExactOracle] in
 theorem rangeOk_null (r : Rfn) : rangeOk r .null = true := by cases r <;> rfl
 
+omit [ExactOracle] in
 theorem γ_setNull_f {t : Ty} {r : Rfn} (hr : r ≠ .unref) (hn : r.nullness ≠ .t) (x : Conc) :
     γ t (setNull .f r) x = (γ t r x && den .notNull x) := by
   unfold γ
@@ -28,6 +34,7 @@ theorem γ_setNull_f {t : Ty} {r : Rfn} (hr : r ≠ .unref) (hn : r.nullness ≠
     | exact absurd hn' hn
     | (generalize Conc.kindOk _ _ = a; generalize rangeOk _ _ = c; cases a <;> cases c <;> rfl)
 
+omit [ExactOracle] in
 theorem γ_setNull_t {t : Ty} {r : Rfn} (hr : r ≠ .unref) (hn : r.nullness ≠ .f) (x : Conc) :
     γ t (setNull .t r) x = (γ t r x && den .null x) := by
   unfold γ
@@ -37,26 +44,31 @@ theorem γ_setNull_t {t : Ty} {r : Rfn} (hr : r ≠ .unref) (hn : r.nullness ≠
     | exact absurd hn' hn
     | (generalize Conc.kindOk _ _ = a; generalize rangeOk _ _ = c; cases a <;> cases c <;> rfl)
 
+omit [ExactOracle] in
 theorem γ_num_lower {t : Ty} {n : Tri} {lo lo' hi : Option Bound} {a : NumArg} {incl : Bool}
     (hl : ∀ y, aboveLower lo' y = (aboveLower lo y && argLower a incl y)) (x : Conc) :
     γ t (.num n lo' hi) x = (γ t (.num n lo hi) x && den (.numLower a incl) x) := by
   cases x <;> simp [γ, rangeOk, den, Rfn.nullness, hl]
   ac_rfl
 
+omit [ExactOracle] in
 theorem γ_num_upper {t : Ty} {n : Tri} {lo hi hi' : Option Bound} {a : NumArg} {incl : Bool}
     (hl : ∀ y, belowUpper hi' y = (belowUpper hi y && argUpper a incl y)) (x : Conc) :
     γ t (.num n lo hi') x = (γ t (.num n lo hi) x && den (.numUpper a incl) x) := by
   cases x <;> simp [γ, rangeOk, den, Rfn.nullness, hl]
   ac_rfl
 
+omit [ExactOracle] in
 theorem argLower_of_num? {a : NumArg} {m : Num} (h : a.num? = some m) (incl : Bool) (y : Num) :
     argLower a incl y = aboveLower (some ⟨m, incl⟩) y := by
   cases a <;> simp_all [NumArg.num?, argLower] <;> subst h <;> rfl
 
+omit [ExactOracle] in
 theorem argUpper_of_num? {a : NumArg} {m : Num} (h : a.num? = some m) (incl : Bool) (y : Num) :
     argUpper a incl y = belowUpper (some ⟨m, incl⟩) y := by
   cases a <;> simp_all [NumArg.num?, argUpper] <;> subst h <;> rfl
 
+omit [ExactOracle] in
 theorem γ_coll_lower {t : Ty} {nl : Tri} {lo hi n : Int} (h : lo ≤ n) (x : Conc) :
     γ t (.coll nl n hi) x = (γ t (.coll nl lo hi) x && den (.lenLower n) x) := by
   cases x <;> simp only [γ, rangeOk, den, Rfn.nullness, Bool.and_true]
@@ -64,6 +76,7 @@ theorem γ_coll_lower {t : Ty} {nl : Tri} {lo hi n : Int} (h : lo ≤ n) (x : Co
   generalize Conc.kindOk _ _ = a; generalize nullOk _ _ = c
   cases a <;> cases c <;> simp <;> (first | omega | (rw [Bool.eq_iff_iff]; simp; omega))
 
+omit [ExactOracle] in
 theorem γ_coll_lower_same {t : Ty} {nl : Tri} {lo hi n : Int} (h : n < lo) (x : Conc) :
     γ t (.coll nl lo hi) x = (γ t (.coll nl lo hi) x && den (.lenLower n) x) := by
   cases x <;> simp only [γ, rangeOk, den, Rfn.nullness, Bool.and_true]
@@ -71,6 +84,7 @@ theorem γ_coll_lower_same {t : Ty} {nl : Tri} {lo hi n : Int} (h : n < lo) (x :
   generalize Conc.kindOk _ _ = a; generalize nullOk _ _ = c
   cases a <;> cases c <;> simp <;> (first | omega | (rw [Bool.eq_iff_iff]; simp; omega))
 
+omit [ExactOracle] in
 theorem γ_coll_upper {t : Ty} {nl : Tri} {lo hi n : Int} (h : n ≤ hi) (x : Conc) :
     γ t (.coll nl lo n) x = (γ t (.coll nl lo hi) x && den (.lenUpper n) x) := by
   cases x <;> simp only [γ, rangeOk, den, Rfn.nullness, Bool.and_true]
@@ -78,6 +92,7 @@ theorem γ_coll_upper {t : Ty} {nl : Tri} {lo hi n : Int} (h : n ≤ hi) (x : Co
   generalize Conc.kindOk _ _ = a; generalize nullOk _ _ = c
   cases a <;> cases c <;> simp <;> (first | omega | (rw [Bool.eq_iff_iff]; simp; omega))
 
+omit [ExactOracle] in
 theorem γ_coll_upper_same {t : Ty} {nl : Tri} {lo hi n : Int} (h : hi < n) (x : Conc) :
     γ t (.coll nl lo hi) x = (γ t (.coll nl lo hi) x && den (.lenUpper n) x) := by
   cases x <;> simp only [γ, rangeOk, den, Rfn.nullness, Bool.and_true]
@@ -87,6 +102,7 @@ theorem γ_coll_upper_same {t : Ty} {nl : Tri} {lo hi n : Int} (h : hi < n) (x :
 
 /-! ## prefixes -/
 
+omit [ExactOracle] in
 theorem overlap_prefix {a b : List UInt8} (h : overlapDiffers a b = false) :
     (a.length ≤ b.length → a <+: b) ∧ (b.length ≤ a.length → b <+: a) := by
   unfold overlapDiffers at h
@@ -99,6 +115,7 @@ theorem overlap_prefix {a b : List UInt8} (h : overlapDiffers a b = false) :
     rw [Nat.min_eq_right hl, List.take_length] at h
     rw [List.prefix_iff_eq_take]; exact h.symm
 
+omit [ExactOracle] in
 /-- the merged prefix has both the recorded and the new prefix as prefixes, and
 nothing more is demanded of a string -/
 theorem merged_prefix {q p : List UInt8} (h : overlapDiffers q p = false) (s : List UInt8) :
@@ -114,10 +131,12 @@ theorem merged_prefix {q p : List UInt8} (h : overlapDiffers q p = false) (s : L
     have hp : p <+: q := h2 (by omega)
     exact ⟨fun hq => ⟨hq, hp.trans hq⟩, fun hq => hq.1⟩
 
+omit [ExactOracle] in
 theorem bytes_ite (c : Prop) [Decidable c] (p q : String) :
     bytes (if c then p else q) = if c then bytes p else bytes q := by
   split <;> rfl
 
+omit [ExactOracle] in
 theorem γ_str_prefix {t : Ty} {n : Tri} {q p : String} (h : overlapDiffers (bytes q) (bytes p) = false)
     (c : RefineCall) (hc : c = .stringPrefix p ∨ c = .stringPrefixFull p) (x : Conc) :
     γ t (.str n (if (bytes p).length > (bytes q).length then p else q)) x = (γ t (.str n q) x && den c x) := by
@@ -136,32 +155,42 @@ def Effect (b b' : Builder) (c : RefineCall) : Prop :=
   b.sameBase b' ∧ (b.wf = true → b'.wf = true) ∧ (b.wip.lenOk = true → b'.wip.lenOk = true) ∧
   (if c.dropped then ∀ x, γB b' x = γB b x else ∀ x, γB b' x = (γB b x && den c x))
 
+omit [ExactOracle] in
 theorem γB_wip (b : Builder) (r : Rfn) (x : Conc) : γB { b with wip := r } x = γ b.orig.ty r x := rfl
 
+omit [ExactOracle] in
 theorem γB_of_wip {b : Builder} {r : Rfn} (h : b.wip = r) (x : Conc) : γB b x = γ b.orig.ty r x := by
   unfold γB; rw [h]
 
+omit [ExactOracle] in
 theorem wf_wip {b : Builder} {r : Rfn} (hk : kindOk b.orig.ty r = kindOk b.orig.ty b.wip)
     (h : b.wf = true) : ({ b with wip := r } : Builder).wf = true := by
   unfold Builder.wf at h ⊢
   simp only [Bool.and_eq_true] at h ⊢
   exact ⟨h.1, by rw [hk]; exact h.2⟩
 
+omit [ExactOracle] in
 theorem kindOk_setNull (t : Ty) (n : Tri) (r : Rfn) : kindOk t (setNull n r) = kindOk t r := by
   cases r <;> rfl
+omit [ExactOracle] in
 theorem lenOk_setNull (n : Tri) (r : Rfn) : (setNull n r).lenOk = r.lenOk := by
   cases r <;> rfl
 
+omit [ExactOracle] in
 theorem den_numLower_unknown (incl : Bool) (x : Conc) : den (.numLower .unknown incl) x = true := by
   cases x <;> rfl
+omit [ExactOracle] in
 theorem den_numUpper_unknown (incl : Bool) (x : Conc) : den (.numUpper .unknown incl) x = true := by
   cases x <;> rfl
 
+omit [ExactOracle] in
 theorem aboveLower_negInf_incl (y : Num) : aboveLower (some ⟨.inf true, true⟩) y = true :=
   aboveLower_incl.mpr (Le.negInf y)
+omit [ExactOracle] in
 theorem belowUpper_posInf_incl (y : Num) : belowUpper (some ⟨.inf false, true⟩) y = true :=
   belowUpper_incl.mpr (Le.posInf y)
 
+omit [ExactOracle] in
 theorem stepNotNull_effect {b b' : Builder} (hu : b.wip ≠ .unref) (h : stepNotNull b = .ok b') :
     Effect b b' .notNull := by
   obtain ⟨rfl, hn, _⟩ := stepNotNull_ok h
@@ -169,6 +198,7 @@ theorem stepNotNull_effect {b b' : Builder} (hu : b.wip ≠ .unref) (h : stepNot
   simp only [RefineCall.dropped, Bool.false_eq_true, if_false]
   intro x; rw [γB_wip]; exact γ_setNull_f hu hn x
 
+omit [ExactOracle] in
 theorem stepNull_effect {b b' : Builder} (hu : b.wip ≠ .unref) (h : stepNull b = .ok b') :
     Effect b b' .null := by
   obtain ⟨rfl, hn, _⟩ := stepNull_ok h
@@ -176,10 +206,13 @@ theorem stepNull_effect {b b' : Builder} (hu : b.wip ≠ .unref) (h : stepNull b
   simp only [RefineCall.dropped, Bool.false_eq_true, if_false]
   intro x; rw [γB_wip]; exact γ_setNull_t hu hn x
 
+omit [ExactOracle] in
 theorem kindOk_num (t : Ty) (n n' : Tri) (lo hi lo' hi' : Option Bound) :
     kindOk t (.num n lo hi) = kindOk t (.num n' lo' hi') := by cases t <;> rfl
+omit [ExactOracle] in
 theorem kindOk_coll (t : Ty) (n n' : Tri) (lo hi lo' hi' : Int) :
     kindOk t (.coll n lo hi) = kindOk t (.coll n' lo' hi') := by cases t <;> rfl
+omit [ExactOracle] in
 theorem kindOk_str (t : Ty) (n n' : Tri) (p p' : String) :
     kindOk t (.str n p) = kindOk t (.str n' p') := by cases t <;> rfl
 
@@ -263,6 +296,7 @@ theorem stepNumUpper_effect {b b' : Builder} {a : NumArg} {incl : Bool} (h : ste
         exact γ_num_upper (fun y => by
           rw [argUpper_of_num? hm]; exact and_self_of_imp' (fun hy => upperTighter_true ht hy)) x
 
+omit [ExactOracle] in
 theorem stepLenLower_effect {b b' : Builder} {n : Int} (h : stepLenLower b n = .ok b') :
     Effect b b' (.lenLower n) := by
   obtain ⟨nl, lo, hi, hw, hcase, _⟩ := stepLenLower_ok h
@@ -273,6 +307,7 @@ theorem stepLenLower_effect {b b' : Builder} {n : Int} (h : stepLenLower b n = .
       rw [γB_wip, γB_of_wip hw]; exact γ_coll_lower h1 x⟩
     rw [hw]; simp only [Rfn.lenOk, decide_eq_true_eq]; omega
 
+omit [ExactOracle] in
 theorem stepLenUpper_effect {b b' : Builder} {n : Int} (h : stepLenUpper b n = .ok b') :
     Effect b b' (.lenUpper n) := by
   obtain ⟨nl, lo, hi, hw, hcase, _⟩ := stepLenUpper_ok h
@@ -283,6 +318,7 @@ theorem stepLenUpper_effect {b b' : Builder} {n : Int} (h : stepLenUpper b n = .
       rw [γB_wip, γB_of_wip hw]; exact γ_coll_upper h2 x⟩
     rw [hw]; simp only [Rfn.lenOk]; exact id
 
+omit [ExactOracle] in
 theorem stepPrefix_effect {b b' : Builder} {p : String} (c : RefineCall)
     (hc : c = .stringPrefix p ∨ c = .stringPrefixFull p) (h : stepPrefix b p = .ok b') :
     Effect b b' c := by
